@@ -33,6 +33,7 @@ type c07Sub struct {
 type c07Case struct {
 	Subs  []c07Sub    `json:"subs"`
 	Unary int         `json:"unary"`
+	Late  int         `json:"late,omitempty"` // unary calls issued only after the stalled streams' handlers have sent everything
 	Rules []*HookRule `json:"rules,omitempty"`
 }
 
@@ -213,6 +214,32 @@ func runC07(c c07Case) (*Violation, string) {
 			return v, ""
 		}
 	}
+	if c.Late > 0 {
+		// wait until the handlers feeding stalled consumers are done (the backlog now sits in the client), then
+		// make sure ordinary traffic still flows on the connection
+		deadline := time.Now().Add(2 * time.Second)
+		for _, s := range subs {
+			for s.Consumer == "stalled" && time.Now().Before(deadline) {
+				if sent, _ := rig.W.Sent(s.tok); sent >= s.N {
+					break
+				}
+				time.Sleep(time.Millisecond)
+			}
+		}
+		time.Sleep(30 * time.Millisecond)
+		var late []*Pending
+		for i := 0; i < c.Late; i++ {
+			late = append(late, rig.Go(cl, "call", rig.Tok("late"), Plan{}))
+		}
+		if out := AwaitReturn(late, 5*time.Second); len(out) > 0 {
+			return violf("unary-blocked-by-stream", "unary call %s did not return within 5s while a stalled subscriber holds a backlog (consumers: %v)", out[0].Tok, consumers(c)), ""
+		}
+		for _, p := range late {
+			if p.Err != nil {
+				return violf("unary-failed", "unary call %s failed on a healthy connection: %v", p.Tok, p.Err), ""
+			}
+		}
+	}
 	if !bounded(10*time.Second, cw.Wait) {
 		return nil, "consumers did not finish"
 	}
@@ -299,6 +326,9 @@ func c07NT(c c07Case) (bool, []string) {
 			cl = append(cl, "len_gt_32")
 			nt = true
 		}
+		if s.N > 8300 {
+			cl = append(cl, "len_gt_8k")
+		}
 		if s.N == 0 {
 			cl = append(cl, "len_0")
 		}
@@ -325,7 +355,7 @@ func TestC07(t *testing.T) {
 	rec := NewRec("C07", c07Rule)
 	defer rec.Finish(t)
 	rec.EnableJournal()
-	rec.RequireClass("len_gt_32", "len_0", "early_send", "consumer_stalled", "consumer_resume", "consumer_slow", "type_int", "type_str", "with_delays", "with_unary", "nsubs_3")
+	rec.RequireClass("len_gt_8k", "len_gt_32", "len_0", "early_send", "consumer_stalled", "consumer_resume", "consumer_slow", "type_int", "type_str", "with_delays", "with_unary", "nsubs_3")
 	run := func(ft failer, c c07Case) {
 		nt, cl := c07NT(c)
 		rec.Run(ft, c, nt, cl, func() *Violation {
@@ -351,6 +381,8 @@ func TestC07(t *testing.T) {
 				run(t, c07Case{Subs: []c07Sub{{Type: []string{"item", "int", "str"}[i%3], N: n, Early: early, Consumer: "eager"}}, Unary: 1})
 			}
 		}
+		// a backlog far beyond any internal buffer: 12000 unread values, then other traffic on the same connection
+		run(t, c07Case{Subs: []c07Sub{{Type: "int", N: 12000, Consumer: "stalled"}, {Type: "item", N: 20, Consumer: "eager"}}, Unary: 3, Late: 3})
 		for _, cons := range []string{"stalled", "resume", "slow"} {
 			run(t, c07Case{Subs: []c07Sub{{Type: "item", N: 300, Consumer: cons}, {Type: "int", N: 40, Early: 2, Consumer: "eager"}, {Type: "str", N: 33, Consumer: "eager"}}, Unary: 4})
 		}
@@ -387,6 +419,7 @@ func TestC07(t *testing.T) {
 			c.Subs = append(c.Subs, s)
 		}
 		c.Unary = rapid.IntRange(0, 6).Draw(rt, "unary")
+		c.Late = rapid.IntRange(0, 2).Draw(rt, "late")
 		nr := rapid.IntRange(0, 3).Draw(rt, "nrules")
 		for i := 0; i < nr; i++ {
 			c.Rules = append(c.Rules, &HookRule{Point: rapid.SampledFrom([]string{"chan.register", "chan.forward", "chan.sink", "write.locked", "resp.found", "resp.delivered"}).Draw(rt, fmt.Sprintf("pt%d", i)),
